@@ -112,7 +112,7 @@ func straceSweep(f *common.Flags, res *common.Result, real string) int {
 							}
 						}
 						if bad != "" {
-							res.Violate(common.Violation{Kind: "impl-violation", Oracle: strings.SplitN(bad, ":", 2)[0],
+							violate(res, common.Violation{Kind: "impl-violation", Oracle: strings.SplitN(bad, ":", 2)[0],
 								Input:  map[string]string{"scenario": sc.Name, "strace_inject": fmt.Sprintf("%s:%s:when=%d", call, mode, k), "id": fmt.Sprint(i)},
 								Detail: bad, Key: fmt.Sprintf("c12s:%s:%s:%s:%d", sc.Name, mode, call, k)})
 						}
